@@ -494,6 +494,21 @@ func ruleRegionsInfoDiscipline(c *Ctx) {
 	repointed := &calledEv{name: "item.region = region", match: func(x ssa.Instruction) bool { return isStoreToField(x, itemRegion) }}
 	c.mustPrecede(rule, set, "removal of the old entries", instrCallMatcher(rmTree, rmSub), []Ev{repointed}, func(h []bool) bool { return !h[0] },
 		"old tree / sub-tree entries are removed while the shared item still carries the old region (its key); re-pointing first would make the removal miss")
+	// a range change rebuilds every index: the sub-trees are keyed by the same start key as the main tree and
+	// displace overlapped entries only when the item is inserted again
+	removedMain := &calledEv{name: "tree.remove(origin)", match: instrCallMatcher(rmTree)}
+	removedSub := &calledEv{name: "removeRegionFromSubTree(origin)", match: instrCallMatcher(rmSub)}
+	c.need(rule, set, "re-pointing of the shared item (item.region = region)", func(x ssa.Instruction) bool { return isStoreToField(x, itemRegion) },
+		[]Ev{removedMain, removedSub}, func(h []bool) bool { return !h[0] || h[1] },
+		"when the region left the main tree (its range changed) it also left the per-store sub-trees: a range change is a change of all peers")
+	// …and on every path the main tree is either rebuilt (range changed) or has its statistics refreshed
+	treeUpdate := &calledEv{name: "tree.update(item)", match: instrCallMatcher(F(P.Method("server/core", "regionTree", "update")))}
+	treeStat := &calledEv{name: "tree.updateStat(origin, region)", match: instrCallMatcher(F(P.Method("server/core", "regionTree", "updateStat")))}
+	subStat := &calledEv{name: "updateSubTreeStat(origin, region)", match: instrCallMatcher(F(P.Method("server/core", "RegionsInfo", "updateSubTreeStat")))}
+	subInsert := &calledEv{name: "sub-tree rebuild (the voters are enumerated)", match: instrCallMatcher(F(P.Method("server/core", "RegionInfo", "GetVoters")))}
+	c.need(rule, set, "return", func(x ssa.Instruction) bool { _, ok := x.(*ssa.Return); return ok },
+		[]Ev{treeUpdate, treeStat, subStat, subInsert}, func(h []bool) bool { return (h[0] || h[1]) && (h[2] || h[3]) },
+		"every call leaves the main tree rebuilt or its size statistics refreshed, and the sub-trees rebuilt or their statistics refreshed")
 	// differential update is exhaustive
 	sh := P.Method("server/core", "RegionsInfo", "shouldRemoveFromSubTree")
 	peersEq := F(P.Func("server/core", "SortedPeersEqual"))
